@@ -165,8 +165,35 @@ func OCIResources() *rapid.Generator[*rspec.LinuxResources] {
 			r.Pids = &rspec.LinuxPids{Limit: I64().Draw(t, "pidlimit")}
 		}
 		r.Unified = StrMap().Draw(t, "unified")
+		var sizes []string
+		for _, h := range r.HugepageLimits {
+			sizes = append(sizes, h.Pagesize)
+		}
+		r.Unified = relatedUnified(t, r.Unified, sizes)
 		return r
 	})
+}
+
+// relatedUnified sometimes adds cgroup v2 keys that name what a typed field of the same
+// resource set names too (the raw setting next to the typed one): hugetlb.<size>.* for the
+// set's own hugepage sizes, memory.*, cpu.*, cpuset.*, pids.max.
+func relatedUnified(t *rapid.T, m map[string]string, pageSizes []string) map[string]string {
+	if Uniform(t, "relunified", 3) != 0 {
+		return m
+	}
+	keys := []string{"memory.max", "memory.high", "memory.swap.max", "cpu.weight", "cpu.max", "cpuset.cpus", "cpuset.mems", "pids.max"}
+	for _, s := range pageSizes {
+		keys = append(keys, "hugetlb."+s+".max", "hugetlb."+s+".rsvd.max")
+	}
+	keys = append(keys, "hugetlb.2MB.max", "hugetlb.1GB.max")
+	n := 1 + Uniform(t, "nrel", 3)
+	if m == nil {
+		m = map[string]string{}
+	}
+	for i := 0; i < n; i++ {
+		m[Pick(t, "relkey", keys)] = Pick(t, "relval", []string{"max", "0", "1", "4096", "0-3", ""})
+	}
+	return m
 }
 
 func OCIMount() *rapid.Generator[rspec.Mount] {
@@ -318,6 +345,11 @@ func NRIResources() *rapid.Generator[*api.LinuxResources] {
 			r.Pids = &api.LinuxPids{Limit: I64().Draw(t, "pidlimit")}
 		}
 		r.Unified = StrMap().Draw(t, "unified")
+		var sizes []string
+		for _, h := range r.HugepageLimits {
+			sizes = append(sizes, h.PageSize)
+		}
+		r.Unified = relatedUnified(t, r.Unified, sizes)
 		r.BlockioClass = OptStr().Draw(t, "blockio")
 		r.RdtClass = OptStr().Draw(t, "rdt")
 		return r
